@@ -132,6 +132,19 @@ func c17(ctx *core.Ctx) {
 		var twinWS, filtWS []*restful.WebService
 		build := func(withFilter bool) (*restful.Container, []*restful.WebService) {
 			c := restful.NewContainer()
+			pkgLevel := withFilter && ti == 0 && rt.DefaultContainerFree()
+			if pkgLevel {
+				// once per process: the package-level container, restful.Filter(restful.OPTIONSFilter()), restful.Add
+				bd := bo
+				bd.Default = true
+				restful.DefaultContainer.Router(restful.CurlyRouter{})
+				if router == "jsr311" {
+					restful.DefaultContainer.Router(restful.RouterJSR311{})
+				}
+				restful.Filter(restful.OPTIONSFilter())
+				ctx.Count("tables_on_the_package_level_container", 1)
+				return rt.BuildWS(t, bd)
+			}
 			if router == "jsr311" {
 				c.Router(restful.RouterJSR311{})
 			}
